@@ -91,12 +91,13 @@ class Tree:
         self.log = []
         self.touched = []  # every path handed to the store API (for confinement)
         self.tmpfiles = {}
+        self.real_messages = False  # __getitem__ parses the content with the stdlib email package
 
     # durable-effect accounting -------------------------------------------
     def effect(self, what):
         """Called *before* a durable mutation.  Returns False if it must be dropped."""
         if self.crashed:
-            return False
+            raise Crash()
         if self.crash_at is not None and self.effects >= self.crash_at:
             self.crashed = True
             raise Crash()
@@ -287,7 +288,13 @@ class FakeMH:
         i = self._idx(key)
         if i is None:
             raise KeyError(f"No message with key: {key}")
-        return FakeMsg(self._dir().content[i], key)
+        c = self._dir().content[i]
+        if TREE.real_messages:
+            import email
+            import email.policy
+
+            return email.message_from_bytes(c, policy=email.policy.default)
+        return FakeMsg(c, key)
 
     def get_message_path(self, key):
         from pathlib import Path
